@@ -79,7 +79,7 @@ class Motion:
     """smooth prescribed motion with exact derivatives:
     r(t) polynomial + trigonometric, A(t) = A0 Exp(a f(t)) with f smooth scalar"""
 
-    def __init__(self, rng, moving=True, rotating=True):
+    def __init__(self, rng, moving=True, rotating=True, rest_at=None):
         self.c0 = rng.normal(size=3)
         self.c1 = rng.normal(size=3) * moving
         self.c2 = rng.normal(size=3) * moving * 0.5
@@ -98,6 +98,15 @@ class Motion:
         if self.array_derivatives:
             self.c2 = np.zeros(3)
             self.amp = np.zeros(3)
+        self.phr = 0.0
+        if rest_at is not None:
+            # a drive that starts smoothly from rest: velocity and angular velocity vanish at t = rest_at (and only there)
+            self.array_derivatives = False
+            self.c1 = np.zeros(3); self.c2 = np.zeros(3)
+            self.amp = rng.normal(size=3) * moving
+            self.ph = np.pi / 2 - self.om * rest_at
+            self.k1 = 0.0
+            self.phr = np.pi / 2 - self.w * rest_at
 
     # position
     def r(self, t):
@@ -111,13 +120,13 @@ class Motion:
 
     # angle function
     def f(self, t):
-        return self.k1 * t + self.k2 * np.sin(self.w * t)
+        return self.k1 * t + self.k2 * np.sin(self.w * t + self.phr)
 
     def f_t(self, t):
-        return self.k1 + self.k2 * self.w * np.cos(self.w * t)
+        return self.k1 + self.k2 * self.w * np.cos(self.w * t + self.phr)
 
     def f_tt(self, t):
-        return -self.k2 * self.w**2 * np.sin(self.w * t)
+        return -self.k2 * self.w**2 * np.sin(self.w * t + self.phr)
 
     def A(self, t):
         return self.A0 @ rodrigues(self.axis * self.f(t))
